@@ -132,7 +132,8 @@ def run_cli(argv, stdin_bytes=b'', files=None, plans=None, stdin_plan=None, stdo
     return res
 
 
-def run_subprocess(argv, stdin_bytes=b'', cwd=None, hashseed='0', repo=None, timeout=120, unbuffered=False):
+def run_subprocess(argv, stdin_bytes=b'', cwd=None, hashseed='0', repo=None, timeout=120, unbuffered=False,
+                   optimize=False):
     """The real thing: python -m penman in a child process (real files in cwd).  stdout is a pipe, i.e.
     block-buffered as in a real shell pipeline unless *unbuffered*; the sandbox's own PYTHONUNBUFFERED=1
     is never inherited (it would force write-through and hide any reordering between the text layer and
@@ -147,6 +148,7 @@ def run_subprocess(argv, stdin_bytes=b'', cwd=None, hashseed='0', repo=None, tim
     e.pop('PYTHONUNBUFFERED', None)
     if unbuffered:
         e['PYTHONUNBUFFERED'] = '1'
-    p = subprocess.run([sys.executable, '-B', '-m', 'penman'] + list(argv), input=stdin_bytes,
+    # optimize: python -O (assert statements are compiled away; nothing may depend on them)
+    p = subprocess.run([sys.executable, '-B'] + (['-O'] if optimize else []) + ['-m', 'penman'] + list(argv), input=stdin_bytes,
                        capture_output=True, cwd=cwd, env=e, timeout=timeout)
     return p.returncode, p.stdout, p.stderr
